@@ -59,8 +59,96 @@ func checkStagedReadEOF(p *Program, r *Result, rule string, lc *ssa.Function, su
 			}
 			tested := false
 			for _, t := range tests {
-				if instrDominates(t, ret) {
+				if !instrDominates(t, ret) {
+					continue
+				}
+				// asking is not enough: where the answer is yes the error that is returned must be another one. Either
+				// this return lies on the "no" side of the test, or the value it carries is a phi whose "yes" edge brings
+				// something other than the read's own error
+				tc, isCall := t.(*ssa.Call)
+				if !isCall {
+					continue
+				}
+				var yes, no *ssa.BasicBlock
+				for _, ref := range *tc.Referrers() {
+					cond := ssa.Value(tc)
+					iff, ok := ref.(*ssa.If)
+					if u, isNot := ref.(*ssa.UnOp); isNot {
+						for _, r2 := range *u.Referrers() {
+							if i2, ok2 := r2.(*ssa.If); ok2 {
+								iff, ok = i2, true
+								cond = u
+							}
+						}
+					}
+					if !ok {
+						continue
+					}
+					if cond == ssa.Value(tc) {
+						yes, no = iff.Block().Succs[0], iff.Block().Succs[1]
+					} else {
+						yes, no = iff.Block().Succs[1], iff.Block().Succs[0]
+					}
+				}
+				if yes == nil {
+					continue
+				}
+				if len(no.Preds) == 1 && no.Dominates(ret.Block()) && !reachableBlocks(yes)[ret.Block()] {
 					tested = true
+					continue
+				}
+				carried := rv
+				if fc, ok := rv.(*ssa.Call); ok && calleeIs(fc, "fmt.Errorf") {
+					// the wrapped operand: what is stored into the variadic argument slice, under its interface conversion
+					for _, arg := range fc.Call.Args {
+						sl, ok := arg.(*ssa.Slice)
+						if !ok {
+							continue
+						}
+						al, ok := sl.X.(*ssa.Alloc)
+						if !ok {
+							continue
+						}
+						for _, ref := range *al.Referrers() {
+							ia, ok := ref.(*ssa.IndexAddr)
+							if !ok {
+								continue
+							}
+							for _, r2 := range *ia.Referrers() {
+								st, ok := r2.(*ssa.Store)
+								if !ok {
+									continue
+								}
+								v := st.Val
+								for {
+									if ci, ok := v.(*ssa.ChangeInterface); ok {
+										v = ci.X
+										continue
+									}
+									if mi, ok := v.(*ssa.MakeInterface); ok {
+										v = mi.X
+										continue
+									}
+									break
+								}
+								if A[v] {
+									carried = v
+								}
+							}
+						}
+					}
+				}
+				if phi, ok := carried.(*ssa.Phi); ok {
+					replaced := false
+					for i, ev := range phi.Edges {
+						pr := phi.Block().Preds[i]
+						if (pr == yes || yes.Dominates(pr)) && ev != ssa.Value(e) {
+							replaced = true
+						}
+					}
+					if replaced {
+						tested = true
+					}
 				}
 			}
 			if !tested {
